@@ -127,11 +127,11 @@ PROFILES = {
             ("late-listeners", dict(intxn_defs=0.8, nest=0.9, n_listen=(0, 2))),
             # a switch over freshly built streams constructed in the same transaction as the sends it must see
             ("dynamic-in-txn", dict(intxn_defs=0.9, nest=0.95, n_listen=(0, 2), n_defs=(3, 8), sends_per_txn=(1, 3),
-                                    weights=W(switchdyn=5, switchlate=4, switchlatec=4, csink=4, ssink=3, map=3, hold=2, merge=2)))],
+                                    weights=W(switchdyn=5, switchlate=4, switchlatec=4, latelisten=3, csink=4, ssink=3, map=3, hold=2, merge=2)))],
     "C02": [("streams", dict(n_defs=(4, 14), samples=0.1, self_merge=True,
                              weights=W(map=5, mapto=1, filter=3, filteropt=1, merge=6, orelse=2, snapshot=3, snapshot1=1, snapshotn=1.5, gate=2, once=2,
                                        hold=1.5, mapc=0.5, lift2=0.5, liftn=0, accum=0.5, collect=0.3, value=0.3, updates=1))),
-            ("streams-intxn", dict(n_defs=(3, 10), intxn_defs=0.5, self_merge=True, weights=W(once=3, merge=6, gate=2))),
+            ("streams-intxn", dict(n_defs=(3, 10), intxn_defs=0.5, self_merge=True, weights=W(once=3, merge=6, gate=2, switchlatec=1.5, switchlate=1, latelisten=2.5))),
             # events re-emitted by defer/split/post in transactions of their own, meeting streams derived from the same source
             ("streams-deferred", dict(n_defs=(5, 12), n_listen=(2, 5), max_defer=2, posts=0.2, nest=0.6, self_merge=True,
                                       weights=W(defer=5, split=2, map=5, filter=2, merge=7, orelse=3, snapshot=2, hold=1.5, gate=1, once=1)))],
@@ -140,7 +140,7 @@ PROFILES = {
             # a deferred transaction right behind the one that spawned it: nothing of the first may be seen by the second
             ("diamonds-deferred", dict(n_defs=(6, 14), sends_per_txn=(1, 3), samples=0.3, n_listen=(2, 5), max_defer=2, posts=0.2,
                                        weights=W(defer=4, split=1.5, lift2=4, merge=7, orelse=2, snapshot=3, mapc=2, map=4, csink=3, ssink=4, hold=2)))],
-    "C04": [("cells", dict(samples=0.9, n_txn=(5, 20), intxn_defs=0.3, n_listen=(0, 2),
+    "C04": [("cells", dict(samples=0.9, n_txn=(5, 20), intxn_defs=0.4, hold_fired_in_txn=0.6, lazies=0.2, n_listen=(0, 2),
                            weights=W(hold=4, holdlazy=1.5, accum=3, collect=3, accumlazy=1.5, collectlazy=1, snaplazy=1.5, snapshot=4, csink=3, gate=1.5, mapc=1, lift2=1))),
             ("cells-deferred", dict(samples=0.6, n_txn=(4, 12), posts=0.4, max_defer=2, n_listen=(1, 3), sends_per_txn=(1, 3),
                                     weights=W(defer=4, split=2, hold=4, accum=3, collect=2, snapshot=5, snapshot1=1, csink=3, gate=1.5, map=2))),
@@ -159,14 +159,14 @@ PROFILES = {
     "C12": [("defer-chains", dict(posts=0.3, samples=0.4, obs=0.4, max_defer=3, weights=W(defer=6, split=3, hold=3, csink=3, snapshot=4, snapshot1=2, once=1))),
             ("deferred", dict(posts=0.4, postsends=0.3, samples=0.4, sends_per_txn=(1, 4), weights=W(defer=4, split=3, hold=3, csink=3, snapshot=4, snapshot1=2, once=1.5, accum=1)))],
     "C13": [("lifts", dict(samples=0.9, n_defs=(5, 14), intxn_defs=0.3, sends_per_txn=(1, 4), lazies=0.2,
-                           weights=W(mapc=5, lift2=6, liftn=3, csink=4, hold=3, ssink=2, updates=2, value=1, switchc=0.7, cloop=0.7)))],
+                           weights=W(mapc=5, lift2=6, liftn=3, csink=4, hold=3, ssink=2, updates=2, value=1, switchc=0.7, cloop=0.7, snapmapc=3, snaplazy=1)))],
     "C14": [("brackets-deferred", dict(scoped=0.6, deep_nest=0.5, nest=0.9, obs=0.7, max_defer=3, posts=0.3, weights=W(defer=5, split=3, hold=2, csink=2))),
             ("brackets", dict(scoped=0.7, deep_nest=0.7, nest=0.95, obs=0.6, intxn_defs=0.3, n_txn=(4, 10), malformed=False))],
     "C15": [("sinks", dict(coalesce_sends=True, sends_per_txn=(1, 5), deep_nest=0.4, scoped=0.3, nest=0.8, samples=0.5, weights=W(ssinkc=6, csink=4, ssink=2, hold=3))),
             ("sinks-posted", dict(coalesce_sends=True, sends_per_txn=(1, 4), nest=0.9, samples=0.4, postsends=0.7, posts=0.2, max_defer=1,
                                   weights=W(ssinkc=7, csink=3, ssink=2, hold=3, merge=2, defer=1)))],
     "C17": [("lazies", dict(lazies=0.9, samples=0.3, n_txn=(4, 14), weights=W(mapc=4, lift2=3, liftn=1, holdlazy=3, hold=3, csink=4, accum=2, accumlazy=2, collectlazy=1, cloop=1, snaplazy=3, snapshot=2)))],
-    "C18": [("router", dict(n_defs=(4, 10), drops=0.3, gcs=0.3, drop_routers=0.3, weights=W(router=5, route=4, ssink=4, map=3, merge=3, hold=1)))],
+    "C18": [("router", dict(n_defs=(4, 10), drops=0.3, gcs=0.3, drop_routers=0.3, rerequest=0.4, weights=W(router=5, route=4, ssink=4, map=3, merge=3, hold=1)))],
     "C06": [("drops", dict(drops=0.8, gcs=0.5, memchecks=0.5, n_defs=(5, 14), n_txn=(4, 12),
                            weights=W(sloop=1.5, cloop=1.5, accum=2, collect=2, switchs=1.5, switchc=1, router=1, defer=1, lift2=2, hold=3, snapshot=3)))],
     "C07": [("periodic-switching", dict(n_defs=(4, 9), n_txn=(0, 2), n_listen=(1, 3), periodic=12, samples=0.0, obs=0.0, unlisten=0.0,
@@ -188,7 +188,7 @@ if os.path.exists(os.path.join(LEAN, "SodiumVerif", "Props", "C11c.lean")):
     PROFILES["C11"].insert(1, C11_LAZY)
 
 
-def gen_scripts(pid, tier, seed, nquick=1200, nthorough=40000):
+def gen_scripts(pid, tier, seed, nquick=3000, nthorough=40000):
     rng = random.Random(seed * 7919 + int(pid[1:]))
     n = nquick if tier == "quick" else nthorough
     profs = PROFILES[pid]
